@@ -48,13 +48,12 @@ CrossNorm2(u, v) ==
            cz == u[1] * v[2] - u[2] * v[1]
        IN  cx * cx + cy * cy + cz * cz
 
-\* Heron's formula as the routine documents it, on lengths sqrt(s2[k]) / S
-HeronRadicand(s2, S) ==
-  LET a == Div(Sqrt(I(s2[1])), I(S))
-      b == Div(Sqrt(I(s2[2])), I(S))
-      c == Div(Sqrt(I(s2[3])), I(S))
-      p == Div(Add(<<a, b, c>>), I(2))
-  IN  Mul(<<p, Sub(p, a), Sub(p, b), Sub(p, c)>>)
+\* Heron's formula as the routine documents it, on three length terms
+HeronRadicandT(a, b, c) ==
+  LET p == Div(Add(<<a, b, c>>), I(2)) IN Mul(<<p, Sub(p, a), Sub(p, b), Sub(p, c)>>)
+\* ... with the data filled in: lengths sqrt(s2[k]) / S
+LenTerm(n2, S) == Div(Sqrt(I(n2)), I(S))
+HeronRadicand(s2, S) == HeronRadicandT(LenTerm(s2[1], S), LenTerm(s2[2], S), LenTerm(s2[3], S))
 HeronTerm(s2, S) == Sqrt(HeronRadicand(s2, S))
 
 \* model-level clauses
@@ -69,7 +68,7 @@ RadicandNonNegOrthogonal(H, P, ppp) ==
 ClosesWithoutPbc(H, P, ppp) ==
   (\A k \in 1..Len(ppp) : ppp[k] = 0) => \A w \in TriWrapped(H, P, ppp) : Closes(w)
 \* (4) the area does not depend on the order of the three points
-TriPerms == {<<1, 2, 3>>, <<1, 3, 2>>, <<2, 1, 3>>, <<2, 3, 1>>, <<3, 1, 2>>, <<3, 2, 1>>}
+TriPerms == {<<2, 1, 3>>, <<1, 3, 2>>}          \* two transpositions generate all six orders
 SortedTriple(s) ==
   LET lo == Min2(s[1], Min2(s[2], s[3]))
       hi == Max2(s[1], Max2(s[2], s[3]))
